@@ -94,7 +94,7 @@ class MergeForLoops(RewritePattern):
     Currently supported are nested for loops:
         - both without iter_args
         - step, ub and lb of both loops defined as constants,
-        - lb == 0 and step == 1 for both loops and
+        - lb == 0, step == 1 and ub >= 0 for both loops and
         - all other operations in the body of the outer loop are side-effect free,
           as they are executed once per iteration of the merged loop
     """
@@ -121,6 +121,10 @@ class MergeForLoops(RewritePattern):
 
         # lb must be 0 and step must be 1:
         if lb != 0 or lb_parent != 0 or step != 1 or step_parent != 1:
+            return
+
+        # ub * ub_parent is only the merged iteration count when neither bound is negative
+        if ub < 0 or ub_parent < 0:
             return
 
         # after merging, every other operation in the parent body runs in each of the
